@@ -193,10 +193,27 @@ fn run(input: &Tree) -> Option<Tree> {
             1 => (Bitstring::random(size, &mut rng).bits.len(), true),
             2 => (Bitstring::random_with_probability(size, 0.5, &mut rng).bits.len(), true),
             3 => {
-                let instrs = vec![PushInstruction::push_int(1), PushInstruction::push_int(2)];
-                let gg = instrs.into_distribution().ok()?.into_gene_generator();
-                let pl: Plushy = gg.to_collection_generator(size).sample(&mut rng);
-                (pl.get_genes().len(), true)
+                // the instruction set contains block-opening instructions (a genome may end with blocks still open:
+                // it still has exactly the requested number of genes); close markers never / by default / always
+                use push::instruction::ExecInstruction;
+                let instrs: Vec<PushInstruction> = vec![
+                    PushInstruction::push_int(1),
+                    ExecInstruction::when().into(),
+                    ExecInstruction::if_else().into(),
+                    ExecInstruction::dup_block().into(),
+                    PushInstruction::push_int(2),
+                ];
+                let d = instrs.clone().into_distribution().ok()?;
+                let pl: Plushy = match rng.next() % 3 {
+                    0 => d.into_gene_generator_with_close_probability(0.0).to_collection_generator(size).sample(&mut rng),
+                    1 => d.into_gene_generator().to_collection_generator(size).sample(&mut rng),
+                    _ => d.into_gene_generator_with_close_probability(0.9).to_collection_generator(size).sample(&mut rng),
+                };
+                let ok = pl.get_genes().iter().all(|g| match g {
+                    push::genome::plushy::PushGene::Close => true,
+                    push::genome::plushy::PushGene::Instruction(i) => instrs.contains(i),
+                });
+                (pl.get_genes().len(), ok)
             }
             4 => {
                 let alpha = v64(p.get(2)?)?;
